@@ -5,6 +5,7 @@ from __future__ import annotations
 import ast
 
 from gv import rules
+from gv.astutil import as_update
 from gv.astutil import dotted
 from gv.astutil import last_attr
 from gv.astutil import mangle
@@ -13,6 +14,7 @@ from gv.astutil import norm_stmt
 from gv.astutil import stmts_of
 from gv.astutil import walk_body
 from gv.cfg import cfg_of
+from gv.props.shared import unfolded
 from gv.effects import writes_in
 from gv.props import describe
 from gv.props.shared import branch_conditions
@@ -465,8 +467,67 @@ def check_update_source_untouched(ctx: Ctx) -> None:
             ctx.ob("15.7-source-untouched", con, n >= 1, "the exclusion of names in JSONGrammar._update was not recognised", node=f, stmt="exclusion recognised")
 
 
+def check_builder_required(ctx: Ctx) -> None:
+    """15.8: the required names live in ``_required_names`` only; the schema builder's own ``required`` set is empty
+    whenever a method of the grammar returns.
+
+    genson fills it on every add_object (all the keys) and add_schema (the schema's ``required``); __sync_required_names
+    fills it for the time of an export.  What stays there is added to the next exported schema (stale required names:
+    the pickled state, to_json and the validator then require names that are optional or no longer exist).
+    """
+    cls = ctx.index.cls(JG, "JSONGrammar")
+    sb = {"__schema_builder", mangle("JSONGrammar", "__schema_builder")}
+
+    def is_builder(e) -> bool:
+        return isinstance(e, ast.Attribute) and e.attr in sb
+
+    n = 0
+    for mname, m in sorted(cls.methods.items()):
+        cfg = cfg_of(m)
+        clears = [c for c in walk_body(m) if isinstance(c, ast.Call) and isinstance(c.func, ast.Attribute) and c.func.attr == "clear" and isinstance(c.func.value, ast.Attribute) and c.func.value.attr == "required" and is_builder(c.func.value.value) and dotted(c.func.value.value.value) == "self"]
+        clear_nodes = {cfg.node_of(c) for c in clears}
+        for c in walk_body(m):
+            if not (isinstance(c, ast.Call) and isinstance(c.func, ast.Attribute)):
+                continue
+            recv = c.func.value
+            feeds = None
+            if c.func.attr == "add_object" and is_builder(recv) and dotted(recv.value) == "self":
+                feeds = "add_object makes every key required"
+            elif c.func.attr == "add_schema" and is_builder(recv) and dotted(recv.value) == "self" and c.args:
+                alts = unfolded(m, c.args[0]) or [c.args[0]]
+                harmless = all(
+                    is_builder(a_)
+                    or (isinstance(a_, ast.Call) and last_attr(a_) in ("deepcopy", "copy") and a_.args and is_builder(a_.args[0]))
+                    or (isinstance(a_, ast.Dict) and all(isinstance(k_, ast.Constant) for k_ in a_.keys) and "required" not in [k_.value for k_ in a_.keys])
+                    for a_ in alts
+                )
+                if not harmless:
+                    feeds = "add_schema takes over the `required` of the schema"
+            elif c.func.attr in ("update", "add") and isinstance(recv, ast.Attribute) and recv.attr == "required" and is_builder(recv.value) and dotted(recv.value.value) == "self":
+                feeds = "the required names are copied into the builder"
+            if feeds is None:
+                continue
+            n += 1
+            cn = cfg.node_of(c)
+            esc = cfg.escape_path(cn, clear_nodes) if clear_nodes else [cn]
+            ctx.ob("15.8-builder-required", cname(JG, "JSONGrammar", mname), esc is None, f"{feeds}, and a path leaves {mname} without `self.__schema_builder.required.clear()`: the names stay in the builder and are exported as required by every later schema / to_json / pickled state, whatever `required_names` says", node=c)
+    ctx.floor("15.8-builder-required", 5)
+    # the required names of an imported schema are read from the schema: the builder intersects them with its own
+    # (emptied) set, so that only the first import would contribute any
+    f = ctx.index.method(JG, "JSONGrammar", "update_from_schema")
+    con = cname(JG, "JSONGrammar", "update_from_schema")
+    par = f.args.args[1].arg
+    upd = [s_ for s_ in stmts_of(f) if as_update(s_) and dotted(as_update(s_)[0]) == "self._required_names"] + [s_ for s_ in stmts_of(f) if isinstance(s_, ast.Expr) and isinstance(s_.value, ast.Call) and norm_stmt(s_.value.func).startswith("self._required_names.")]
+    ok = len(upd) == 1
+    if ok:
+        src = as_update(upd[0])[2] if as_update(upd[0]) else upd[0].value.args[0]
+        ok = par in names_in(src) and "required" in norm_stmt(src) and not any(is_builder(n_) for n_ in ast.walk(src))
+    ctx.ob("15.8-builder-required", con, ok, "the required names added by update_from_schema must be those listed by the schema given (schema['required']): the builder's own `required` is the INTERSECTION with what it already holds, i.e. nothing once a first schema has been processed", node=(upd or [f])[0], stmt="required names of the imported schema")
+
+
 def run(ctx: Ctx) -> None:
     check_update_source_untouched(ctx)
+    check_builder_required(ctx)
     check_json(ctx)
     check_pydantic(ctx)
     check_base(ctx)
@@ -476,6 +537,8 @@ def run(ctx: Ctx) -> None:
 
 # ---------------------------------------------------------------------------
 WITNESSES = [
+    {"name": "setstate-leaves-required-in-the-builder", "file": JG, "old": "        # The required names are handled by _required_names.\n        self.__schema_builder.required.clear()\n", "new": "", "expect": "15.8"},
+    {"name": "required-of-the-import-read-from-the-builder", "file": JG, "old": "        self._required_names |= set(schema.get(\"required\", ()))\n", "new": "        self._required_names |= self.__schema_builder.required\n", "expect": "15.8"},
     {"name": "update-excludes-on-a-shallow-copy", "file": JG, "old": "            schema_builder = deepcopy(grammar.__schema_builder)", "new": "            schema_builder = copy(grammar.__schema_builder)", "expect": "15.7"},
     {"name": "update-excludes-on-the-source", "file": JG, "old": "            schema_builder = deepcopy(grammar.__schema_builder)", "new": "            schema_builder = grammar.__schema_builder", "expect": "15.7"},
     {"name": "delitem-no-invalidate", "file": JG, "old": "        del self.__schema_builder[name]\n        self.__init_dependencies()", "new": "        del self.__schema_builder[name]", "expect": "15.1"},
